@@ -3,6 +3,7 @@ package main
 import (
 	"regexp"
 	"sort"
+	"strings"
 
 	"github.com/influxdata/influxql"
 )
@@ -41,6 +42,9 @@ func c12Prelude(schema []interface{}) []string {
 	for _, x := range schema {
 		e := obj(x)
 		m := influxql.QuoteIdent(str(e["name"]))
+		if i := strings.Index(str(e["name"]), ".."); i > 0 {
+			m = influxql.QuoteIdent(str(e["name"])[:i], "", str(e["name"])[i+2:])
+		}
 		for _, t := range list(e["tags"]) {
 			out = append(out, "SELECT * FROM "+m+" GROUP BY "+influxql.QuoteIdent(str(t)))
 		}
@@ -59,19 +63,24 @@ type c12cached struct {
 
 func (m *c12Mapper) FieldDimensions(ms *influxql.Measurement) (map[string]influxql.DataType, map[string]struct{}, error) {
 	if m.static != nil {
-		if c, ok := m.static[ms.Name]; ok {
+		skey := ms.Database + ".." + ms.Name
+		if c, ok := m.static[skey]; ok {
 			return c.fields, c.dims, nil
 		}
 		sub := &c12Mapper{schema: m.schema, rot: m.rot}
 		f, d, _ := sub.FieldDimensions(ms)
-		m.static[ms.Name] = &c12cached{fields: f, dims: d}
+		m.static[skey] = &c12cached{fields: f, dims: d}
 		return f, d, nil
 	}
 	fields := make(map[string]influxql.DataType)
 	dims := make(map[string]struct{})
+	key := ms.Name
+	if ms.Database != "" { // a measurement written with a database is another measurement (schema key "db..name")
+		key = ms.Database + ".." + ms.Name
+	}
 	for _, x := range m.schema {
 		e := obj(x)
-		if str(e["name"]) != ms.Name {
+		if str(e["name"]) != key {
 			continue
 		}
 		fl := list(e["fields"])
